@@ -98,7 +98,7 @@ def decodeOut : OVal α × Outcome α → FieldOut α
   | (_, .raise _) => .raise
 
 macro "pv_simp" "[" ls:Lean.Parser.Tactic.simpLemma,* "]" : tactic =>
-  `(tactic| obj_simp [Parse.parse_value, Options.handle_error, Field.get_on_error, Field.is_required, Field.get_default,
+  `(tactic| obj_simp [Parse.parse_value, Parse.invalid_value, Options.handle_error, Field.get_on_error, Field.is_required, Field.get_default,
       Field.always_no_input, Field.no_default, encPField, encContext, encRunOptions, encPolicy, encOptVal, getattr, setattr,
       lookupAttr, setAttrL, append, isinstance, OVal.isNone, OVal.isTrue, OVal.isUnprovided, eq, eqS, decodeOut, Except.map,
       tryCatch, tryCatchThe, MonadExceptOf.tryCatch, Except.tryCatch, Exc.isA, Field.policy, $ls,*])
